@@ -199,6 +199,23 @@ def classify_marker(ctx, ci, fi, regex, facts=()):
             continue
         hi = v.slice.upper
         r = p.ret()
+        # a delimiter left out of the value is what pack emits after the value: it is remembered
+        # by this path, or it is the bytes marker the constructor already keeps for pack
+        is_shortcut = regex and any('self.until_marker.pattern' in g and "b'$'" in g and '==' in g for g in gt)
+        if 'not self.include_delimiter' in gt and not is_shortcut:
+            dst = [e for e in p.effects if e.kind == 'store_attr' and canon(e.obj) == 'self' and e.name == 'delimiter_to_be_included']
+            if dst:
+                dv = dst[-1].value
+                found = canon(dv) == 'self.until_marker' if not regex else (isinstance(dv, ast.Call) and isinstance(dv.func, ast.Attribute) and dv.func.attr == 'group'
+                                                                            and search_call(dv.func.value) is not None and not dv.args) or canon(dv) == 'self.until_marker'
+                if found:
+                    ctx.holds('C06-pack-reemits', fi, '%s self.delimiter_to_be_included = %s' % (label, canon(dv)[:80]), 'the delimiter left out of the value is remembered for pack', dst[-1].lineno, clause='e')
+                elif isinstance(dv, ast.Constant):
+                    ctx.violation('C06-pack-reemits', fi, '%s self.delimiter_to_be_included = %s' % (label, canon(dv)[:80]), 'a delimiter that is left out of the value and consumed is replaced by a constant: pack does not emit the bytes that were parsed', dst[-1].lineno, clause='e', witness=True)
+                else:
+                    ctx.undecided('C06-pack-reemits', fi, '%s self.delimiter_to_be_included = %s' % (label, canon(dv)[:80]), 'cannot see that what is remembered for pack is the delimiter found', dst[-1].lineno, clause='e')
+            elif regex:
+                ctx.violation('C06-pack-reemits', fi, '%s [delimiter excluded]' % label, 'the delimiter matched by a pattern marker is left out of the value and not remembered: the constructor keeps b\'\' for pattern markers, so pack emits the value without the delimiter that was parsed', s.lineno, clause='e', witness=True)
         # read-to-end shortcut
         if regex and any('self.until_marker.pattern' in g and "b'$'" in g and '==' in g for g in gt):
             st = '%s [$ shortcut] value raw[offset:%s], return %s' % (label, canon(hi) if hi is not None else '', canon(r))
@@ -230,6 +247,12 @@ def classify_marker(ctx, ci, fi, regex, facts=()):
             okprim = meth in ('find', 'index')
             found = meth == 'index' or has_nonneg_guard(p, sc)
         stc = '%s search %s' % (label, canon(sc)[:120])
+        if not okprim and regex and meth in ('find', 'index'):
+            # a pattern marker served by a literal search: right only if _compile established that
+            # the pattern is a literal and replaced the marker by it -- not followed
+            ctx.undecided(rule_c, fi, stc, 'a pattern marker is searched with bytes.%s: cannot see that the pattern can only match itself' % meth, s.lineno, clause='c')
+            seen_window = seen_open = True
+            continue
         if not okprim:
             ctx.violation(rule_c, fi, stc, '%s is not a first-occurrence search at or after the cursor' % meth, s.lineno, clause='c')
             continue
